@@ -133,9 +133,9 @@ PROPS = {
     ),
     "C12": dict(
         modules=["GraphSlam.Props.C12"],
-        theorem_files=["GraphSlam/Props/C12/*.lean"],
-        scan_files=["GraphSlam/Core/*.lean", "GraphSlam/Model/Ctl.lean"],
-        corr=[("harness.entry", "ctl", dict())],
+        theorem_files=["GraphSlam/Props/C12/*.lean", "GraphSlam/Props/E2E/Run.lean"],
+        scan_files=["GraphSlam/Core/*.lean", "GraphSlam/Model/Ctl.lean", "GraphSlam/Model/Run.lean", "GraphSlam/Model/GraphIter.lean", "GraphSlam/Model/Assembly.lean", "GraphSlam/Props/C06/*.lean"],
+        corr=[("harness.entry", "ctl", dict()), ("harness.entry", "fullrun", dict(quick=60, thorough=2500))],
         search=("search.entry", "c12"),
         always_search=True,
         replay=("search.entry", "replay_generic"),
@@ -188,8 +188,8 @@ PROPS = {
     "C07": dict(
         modules=["GraphSlam.Props.C07"],
         theorem_files=["GraphSlam/Props/C07/*.lean", "GraphSlam/Props/E2E/Frame.lean", "GraphSlam/Theory/GaussNewton.lean"],
-        scan_files=["GraphSlam/Core/*.lean", "GraphSlam/Real/*.lean", "GraphSlam/Props/C09/*.lean", "GraphSlam/Props/C01/*.lean", "GraphSlam/Props/C10/*.lean", "GraphSlam/Model/Assembly.lean", "GraphSlam/Model/GraphIter.lean", "GraphSlam/Props/C06/*.lean"],
-        corr=[("harness.entry", "layer_a", dict(only=["Edge", "Pose", "Util"], quick=25, thorough=400)), ("harness.entry", "assembly", dict(quick=40, thorough=1500)), ("harness.entry", "graphiter", dict(quick=60, thorough=2500))],
+        scan_files=["GraphSlam/Core/*.lean", "GraphSlam/Real/*.lean", "GraphSlam/Props/C09/*.lean", "GraphSlam/Props/C01/*.lean", "GraphSlam/Props/C10/*.lean", "GraphSlam/Model/Assembly.lean", "GraphSlam/Model/GraphIter.lean", "GraphSlam/Model/Run.lean", "GraphSlam/Model/Ctl.lean", "GraphSlam/Props/C06/*.lean"],
+        corr=[("harness.entry", "layer_a", dict(only=["Edge", "Pose", "Util"], quick=25, thorough=400)), ("harness.entry", "assembly", dict(quick=40, thorough=1500)), ("harness.entry", "graphiter", dict(quick=60, thorough=2500)), ("harness.entry", "fullrun", dict(quick=40, thorough=1500))],
         search=("search.entry", "c07"),
         always_search=True,
         replay=("search.entry", "replay_generic"),
@@ -201,7 +201,8 @@ PROPS = {
         "T.(l+d)=T.l+R_T d; the Jacobian of a pose vertex is the same matrix in both frames (uniqueness of the derivative + C01); an invertible change of variables that does not mix fixed and free unknowns maps solutions of the assembled system to solutions (reparam_solves). "
         "End to end (Props/E2E/Frame.lean, on the typed-graph model of a whole iteration Model.step, which tools/harness/graphiter.py ties to the real optimize(max_iter=1)): the Jacobian of every pose vertex is the same matrix in both frames "
         "(SE(2) unconditionally - also on the wrap - via the wrap-free error; SE(3) and R^n by uniqueness of the derivative), hence linearisation, contributions, accumulation, dense fill, solve and update commute with T: "
-        "trajectory_frame_SE2 / _SE3 / _R2 / _R3 - for ANY solver and ANY number of iterations the k-iteration state of the transformed graph is T applied to the k-iteration state of the original (SE(2)/SE(3) graphs whose vertices are all poses; R^2/R^3 graphs with every edge class). "
+        "trajectory_frame_SE2 / _SE3 / _R2 / _R3 - for ANY solver and ANY number of iterations the k-iteration state of the transformed graph is T applied to the k-iteration state of the original (SE(2)/SE(3) graphs whose vertices are all poses; R^2/R^3 graphs with every edge class); "
+        "and optimize_frame_SE2 / _SE3 / _R2 / _R3 on the model of a WHOLE optimize() call (Model.optimizeSolve, tied by tools/harness/fullrun.py): same report (every chi2, stopping index, converged), same flags, and the returned state is T applied to the returned state of the original. "
         "Graphs mixing SE(n) poses with R^n landmark vertices: the pieces (error invariance, pose-vertex Jacobian invariance, T.(l+d)=T.l+R_T d, reparam_solves) are proved, their composition over the whole iteration is explored every run, not one theorem.",
         level_note="For graphs with landmark *vertices* in SE(2)/SE(3) worlds the assembled system is conjugated by an orthogonal block matrix; the end-to-end statement there needs a solver hypothesis and is assembled from proved pieces.",
     ),
